@@ -1,0 +1,124 @@
+//go:build verif
+
+package mqtt
+
+import (
+	"net"
+	"time"
+)
+
+// This file is compiled only with the build tag "verif". It exports pure
+// functions and read-only views for the verification harness in /verif.
+// Nothing here changes the behaviour of the package.
+
+// VerifEncodeValue exposes encodeValue with the buffers joined.
+func VerifEncodeValue(packet net.Buffers, seqNo uint64) []byte {
+	var out []byte
+	for _, b := range encodeValue(append(net.Buffers(nil), packet...), seqNo) {
+		out = append(out, b...)
+	}
+	return out
+}
+
+// VerifDecodeValue exposes decodeValue.
+func VerifDecodeValue(buf []byte) ([]byte, uint64, error) { return decodeValue(buf) }
+
+// VerifStringCheck exposes stringCheck.
+func VerifStringCheck(s string) error { return stringCheck(s) }
+
+// VerifTopicCheck exposes topicCheck.
+func VerifTopicCheck(s string) error { return topicCheck(s) }
+
+// VerifPublishPacket exposes publishPacket with a private buffer.
+func VerifPublishPacket(message []byte, topic string, packetID uint, head byte) (net.Buffers, error) {
+	return publishPacket(new([bufSize]byte), message, topic, packetID, head)
+}
+
+// VerifConfigValid exposes Config.valid.
+func VerifConfigValid(c *Config) error { return c.valid() }
+
+// VerifNewCONNREQ exposes Config.newCONNREQ.
+func VerifNewCONNREQ(c *Config, clientID []byte) []byte { return c.newCONNREQ(clientID) }
+
+// VerifWriteTo exposes writeTo.
+func VerifWriteTo(conn net.Conn, p []byte, idle time.Duration) error { return writeTo(conn, p, idle) }
+
+// VerifWriteBuffersTo exposes writeBuffersTo.
+func VerifWriteBuffersTo(conn net.Conn, p net.Buffers, idle time.Duration) error {
+	return writeBuffersTo(conn, p, idle)
+}
+
+// VerifNonNilIsAny exposes nonNilIsAny.
+func VerifNonNilIsAny(err error, matches []error) bool { return nonNilIsAny(err, matches) }
+
+// VerifCleanSequence exposes cleanSequence.
+func VerifCleanSequence(keys []uint, name string) ([]uint, []error) {
+	var warn []error
+	out := cleanSequence(keys, name, &warn)
+	return out, warn
+}
+
+// VerifSetReadBufSize sets readBufSize and returns the previous value.
+func VerifSetReadBufSize(n int) int {
+	old := readBufSize
+	readBufSize = n
+	return old
+}
+
+// VerifCounters is a snapshot of the outbound counters of a quiescent Client.
+type VerifCounters struct {
+	Acked, Received, Completed uint
+	AcceptN1, SubmitN1         uint
+	AcceptN2, SubmitN2         uint
+	Queue1, Queue2             int
+	Cap1, Cap2                 int
+	Unordered                  int
+	PendingAck                 []byte
+	SeqClosed                  bool
+}
+
+// VerifCountersOf reads the counters; the sequence tokens are taken and put
+// back, so the Client must not be inside a publish or connect.
+func VerifCountersOf(c *Client) VerifCounters {
+	v := VerifCounters{
+		Acked: c.orderedTxs.Acked, Received: c.orderedTxs.Received, Completed: c.orderedTxs.Completed,
+		Queue1: len(c.atLeastOnce.queue), Queue2: len(c.exactlyOnce.queue),
+		Cap1: cap(c.atLeastOnce.queue), Cap2: cap(c.exactlyOnce.queue),
+		PendingAck: append([]byte(nil), c.pendingAck...),
+	}
+	if s, ok := <-c.atLeastOnce.seqSem; ok {
+		v.AcceptN1, v.SubmitN1 = s.acceptN, s.submitN
+		c.atLeastOnce.seqSem <- s
+	} else {
+		v.SeqClosed = true
+	}
+	if s, ok := <-c.exactlyOnce.seqSem; ok {
+		v.AcceptN2, v.SubmitN2 = s.acceptN, s.submitN
+		c.exactlyOnce.seqSem <- s
+	} else {
+		v.SeqClosed = true
+	}
+	c.unorderedTxs.Lock()
+	v.Unordered = len(c.unorderedTxs.perPacketID)
+	c.unorderedTxs.Unlock()
+	return v
+}
+
+// VerifErrors lists the unexported sentinel errors by name, for error
+// classification with errors.Is in the harness.
+func VerifErrors() map[string]error {
+	return map[string]error{
+		"errPacketMax": errPacketMax, "errStringMax": errStringMax, "errUTF8": errUTF8,
+		"errNull": errNull, "errZero": errZero,
+		"errSubscribeNone": errSubscribeNone, "errUnsubscribeNone": errUnsubscribeNone,
+		"errBrokerTerm": errBrokerTerm, "errProtoReset": errProtoReset,
+		"errPacketIDZero": errPacketIDZero, "errPacketIDSpace": errPacketIDSpace,
+		"errRESERVED0": errRESERVED0, "errGotCONNECT": errGotCONNECT, "errCONNACKTwo": errCONNACKTwo,
+		"errGotSUBSCRIBE": errGotSUBSCRIBE, "errGotUNSUBSCRIBE": errGotUNSUBSCRIBE,
+		"errGotPINGREQ": errGotPINGREQ, "errGotDISCONNECT": errGotDISCONNECT,
+		"errRESERVED15": errRESERVED15, "errDupe": errDupe,
+	}
+}
+
+// VerifVolatile returns the package's in-memory Persistence.
+func VerifVolatile() Persistence { return newVolatile() }
